@@ -11,3 +11,169 @@ Theorem C03_defaults :
 Proof. repeat split; reflexivity. Qed.
 
 Print Assumptions C03_defaults.
+
+(* ================================================================================================== *)
+(* C03_exec - the simulation theorem: the token machine of the model computes the documented semantics.
+     syntax, printer, semantics         spec/NoteSem.v        (cmd, pprog, sem / denote_prog, perf)
+     tokens_of / top_tokens             proofs/NoteSimDefs.v  the tokens the model lexer produces for pprog p
+                                                              (every lex call opens with TLineNo; so do the children of Sub / tuplets)
+     wf_cmd / wf_prog                   proofs/NoteSimDefs.v  the hypotheses: explicit gate <> 0, velocity >= 0, octave >= 0,
+                                                              timing <> isize::MIN, an omitted velocity is not followed by a timing / octave
+                                                              field, well-formed length expressions, loop counts >= 1, track numbers 0..999,
+                                                              chord items = parameterless lettered notes and > <, chord gate > 0, chord velocity 0..127
+     R                                  proofs/NoteSimDefs.v  abstraction Song ~ perf: per track pointer / channel / l o v q t / TrackKey equal, no tie
+                                                              pending, the NoteOn events (channel, key, time, duration, velocity) are the notes of the
+                                                              track AS A MULTISET (a chord's notes are written last-first); current track, time base,
+                                                              key flags, key shift equal; no chord open, no octave-once pending, break_flag down,
+                                                              vAdd = 8, key shift in use
+     fuel_of                            proofs/NoteSimDefs.v  explicit sufficient per-loop fuel; the nesting fuel is prog_depth p
+   The link  lex (pprog p) = top_tokens p  is TESTED on every run (tools/props/c03.py, kind lex_vs_tokens), not proved. *)
+From Coq Require Import Permutation.
+From Sakura.Model Require Import Cursor Length.
+From Sakura.Spec Require Import LenSpec.
+From Sakura.Proofs Require Import NoteSimDefs NoteSimP NoteStructP NoteExecP.
+
+(* the count a tuplet token carries (computed by the lexer on the tokens) is the documented count of the tree *)
+Theorem C03_tuplet_count : forall items : list cmd, div_count (top_tokens items) = tuplet_count items.
+Proof. exact div_count_tuplet. Qed.
+
+(* MAIN.  For every well-formed program of the core note language - any length, any nesting of loops (with or
+   without ':'), chords, tuplets and Sub blocks, any tracks - exec() on its tokens, started in any state related to
+   the initial semantic state, with nesting fuel above the depth and per-loop fuel above fuel_of p, terminates
+   normally (no panic, no Unsupported, no OutOfFuel) in a state related to the denotation of the program. *)
+Theorem C03_exec : forall p : list cmd, wf_prog p = true ->
+  forall (s0 : song) (d steps : nat), R s0 perf0 -> (prog_depth p <= d)%nat -> (fuel_of p <= steps)%nat ->
+  exists s, exec_f (S d) steps (top_tokens p) (Ok s0) = Ok s /\ R s (denote_prog p).
+Proof. exact exec_simulation_top. Qed.
+
+(* the same on the bare command tokens (without the leading line-number token) *)
+Theorem C03_exec_tokens : forall p : list cmd, wf_prog p = true ->
+  forall (s0 : song) (d steps : nat), R s0 perf0 -> (prog_depth p <= d)%nat -> (fuel_of p <= steps)%nat ->
+  exists s, exec_f (S d) steps (tokens_of p) (Ok s0) = Ok s /\ R s (denote_prog p).
+Proof. exact exec_simulation. Qed.
+
+(* compositional form: a well-formed block from ANY pair of related states (what Sub / tuplet bodies use) *)
+Theorem C03_exec_from : forall l : list cmd, wf_prog l = true ->
+  forall (d steps : nat) (s : song) (q : perf) (f : nat),
+  (prog_depth l <= d)%nat -> (flat_cost_l l < steps)%nat -> (inner_cost_l l <= steps)%nat -> (prog_depth l <= f)%nat ->
+  R s q ->
+  exists s', exec_f (S d) steps (tokens_of l) (Ok s) = Ok s' /\ R s' (sem_prog f l q).
+Proof. exact exec_simulation_from. Qed.
+
+(* the initial states are related: Song::new, and the state Compile.run_source hands to exec() *)
+Theorem C03_initial : R song_new perf0 /\ forall ls, lx_timebase ls = 96 -> R (song_after_lex ls) perf0.
+Proof. exact (conj R_init R_after_lex). Qed.
+
+(* the notes: per track, the NoteOn events of the final state are the notes the program denotes (as multisets) *)
+Theorem C03_notes : forall p : list cmd, wf_prog p = true ->
+  exists s, exec_f (S (prog_depth p)) (fuel_of p) (top_tokens p) (Ok song_new) = Ok s /\
+    Forall2 (fun tr t => Permutation (notes_of (tr_events tr)) (t_notes t)) (s_tracks s) (p_tracks (denote_prog p)).
+Proof. exact notes_simulation. Qed.
+
+(* Compile.run_source on the printed program, GIVEN the (tested) lexer link for this program *)
+Theorem C03_run_source : forall (p : list cmd) (ls : lexstate), wf_prog p = true ->
+  lex (mkLex 96 [] init_vars Sakura.Gen.VarRows.rhythm_rows) (pprog p) 0 = Ok (top_tokens p, ls) -> lx_timebase ls = 96 ->
+  (prog_depth p <= length (pprog p))%nat -> (fuel_of p <= STEPS)%nat ->
+  exists s, run_source (pprog p) = Ok s /\ R s (denote_prog p).
+Proof. exact run_source_simulation. Qed.
+
+(* per command: one leaf token is one step of the semantics (here for the lettered note) *)
+Theorem C03_step_note : forall base acc natural len gate vel timing oct,
+  wf_cmd (CNote base acc natural len gate vel timing oct) = true ->
+  forall (ec : list tok -> res song -> res song) (s : song) (q : perf) (f : nat), R s q ->
+  exists s', step_song ec (TNote base acc (if natural then 1 else 0) (plen len) (osent gate 0) (vel_sentinel vel timing oct)
+                                 (osent timing ISIZE_MIN) (osent oct (-1)) 0) s = Ok s' /\
+             R s' (NoteSem.sem (S f) (CNote base acc natural len gate vel timing oct) q).
+Proof. exact step_note. Qed.
+
+(* ---- non-vacuity: "[2 c ) : e+8,50,90 > ] 'c > e g '2,80 TR(2) KF+(f) {g r n60, [ f ] }4.^16 Sub{a2,,70,3,3 } l8 b"
+        a loop with ':', a chord with octave steps, and on a third track a tuplet containing a loop, a Sub, a key signature ---- *)
+Definition ex_n (b : Z) : cmd := CNote b 0 false None None None None None.
+Definition ex_l8 : olen := Some (mkAtom false false [8] 0, []).
+Definition ex_l2 : olen := Some (mkAtom false false [2] 0, []).
+Definition ex_l4d : olen := Some (mkAtom false false [4] 1, [(true, mkAtom false false [1;6] 0)]).
+Definition ex_prog : list cmd :=
+  [CLoop (Some 2) [ex_n 0; CVelUp] (Some [CNote 4 1 false ex_l8 (Some 50) (Some 90) None None; COctUp]);
+   CChord [ex_n 0; COctUp; ex_n 4; ex_n 7] ex_l2 (Some 80) None;
+   CTrack 2; CKeyFlag true [5];
+   CTuplet [ex_n 7; CRest None; CNoteN 60 None None None None; CLoop None [ex_n 5] None] ex_l4d;
+   CSub [CNote 9 0 false ex_l2 None (Some 70) (Some 3) (Some 3)]; CLen ex_l8; ex_n 11].
+Definition ex_tup (n : note) := (n_ch n, n_key n, n_start n, n_dur n, n_vel n).
+
+Example C03_example :
+  wf_prog ex_prog = true /\ lex_of_prog ex_prog = Ok (top_tokens ex_prog) /\
+  exists s, exec_f (S (prog_depth ex_prog)) (fuel_of ex_prog) (top_tokens ex_prog) (Ok song_new) = Ok s /\
+    map (fun tr => map ex_tup (notes_of (tr_events tr))) (s_tracks s)
+    = [[(0, 60, 0, 86, 100); (0, 65, 96, 24, 90); (0, 72, 144, 86, 108);
+        (0, 91, 240, 153, 116); (0, 88, 240, 153, 116); (0, 72, 240, 153, 116)];      (* the chord, last note first *)
+       [];
+       [(1, 67, 0, 37, 100); (1, 60, 84, 37, 100); (1, 66, 126, 37, 100); (1, 66, 168, 37, 100);
+        (1, 45, 171, 172, 70); (1, 71, 168, 43, 100)]] /\
+    map (fun t => map ex_tup (t_notes t)) (p_tracks (denote_prog ex_prog))
+    = [[(0, 60, 0, 86, 100); (0, 65, 96, 24, 90); (0, 72, 144, 86, 108);
+        (0, 72, 240, 153, 116); (0, 88, 240, 153, 116); (0, 91, 240, 153, 116)];
+       [];
+       [(1, 67, 0, 37, 100); (1, 60, 84, 37, 100); (1, 66, 126, 37, 100); (1, 66, 168, 37, 100);
+        (1, 45, 171, 172, 70); (1, 71, 168, 43, 100)]].
+Proof.
+  split; [vm_compute; reflexivity|]. split; [vm_compute; reflexivity|].
+  eexists. split; [vm_compute; reflexivity|]. split; vm_compute; reflexivity.
+Qed.
+
+(* the hypotheses of C03_run_source hold for it: the whole front half of compile() on the source text *)
+Example C03_example_source : exists s, run_source (pprog ex_prog) = Ok s /\ R s (denote_prog ex_prog).
+Proof.
+  assert (Hl : exists ls, lex (mkLex 96 [] init_vars Sakura.Gen.VarRows.rhythm_rows) (pprog ex_prog) 0 = Ok (top_tokens ex_prog, ls)
+                          /\ lx_timebase ls = 96).
+  { eexists. split; [vm_compute; reflexivity|reflexivity]. }
+  destruct Hl as (ls & Hl & Htb).
+  apply (C03_run_source ex_prog ls); [vm_compute; reflexivity|exact Hl|exact Htb|vm_compute; lia|].
+  assert (E : fuel_of ex_prog = 27%nat) by (vm_compute; reflexivity). rewrite E. unfold STEPS. lia.
+Qed.
+
+(* ---- where model and specification differ OUTSIDE the hypotheses (each excluded by wf_prog) ---- *)
+Definition ex_one (c : cmd) : list (list (Z * Z * Z * Z * Z)) * list (list (Z * Z * Z * Z * Z)) * bool :=
+  (match exec_f 3 20 (top_tokens [c]) (Ok song_new) with
+   | Ok s => map (fun tr => map ex_tup (notes_of (tr_events tr))) (s_tracks s) | _ => [] end,
+   map (fun t => map ex_tup (t_notes t)) (p_tracks (denote_prog [c])),
+   wf_prog [c]).
+
+(* `c,0`: gate 0 is the code's "unset" (default gate 90 %), the semantics says duration 0 *)
+Example C03_gate_zero_refuted :
+  ex_one (CNote 0 0 false None (Some 0) None None None) = ([[(0, 60, 0, 86, 100)]], [[(0, 60, 0, 0, 100)]], false).
+Proof. vm_compute. reflexivity. Qed.
+(* `c,,,5`: an empty velocity field before a timing reads as velocity 0 *)
+Example C03_empty_velocity_refuted :
+  ex_one (CNote 0 0 false None None None (Some 5) None) = ([[(0, 60, 5, 86, 0)]], [[(0, 60, 5, 86, 100)]], false).
+Proof. vm_compute. reflexivity. Qed.
+(* `'c',,200`: a chord velocity is not clamped *)
+Example C03_chord_velocity_refuted :
+  ex_one (CChord [ex_n 0] None None (Some 200)) = ([[(0, 60, 0, 86, 200)]], [[(0, 60, 0, 86, 127)]], false).
+Proof. vm_compute. reflexivity. Qed.
+(* `'c',0` and `'c',-5`: a chord gate <= 0 is "unset" *)
+Example C03_chord_gate_refuted :
+  ex_one (CChord [ex_n 0] None (Some 0) None) = ([[(0, 60, 0, 86, 100)]], [[(0, 60, 0, 0, 100)]], false) /\
+  ex_one (CChord [ex_n 0] None (Some (-5)) None) = ([[(0, 60, 0, 86, 100)]], [[(0, 60, 0, -4, 100)]], false).
+Proof. split; vm_compute; reflexivity. Qed.
+(* `[0 c]`: the machine runs a loop of count 0 once (C05_count_zero_runs_once) *)
+Example C03_loop_zero_refuted :
+  ex_one (CLoop (Some 0) [ex_n 0] None) = ([[(0, 60, 0, 86, 100)]], [[]], false).
+Proof. vm_compute. reflexivity. Qed.
+(* `TR(1000)`: outside the modelled range *)
+Example C03_track_range_refuted :
+  exec_f 3 20 (top_tokens [CTrack 1000]) (Ok song_new) = Unsupported U_RUN_TRACKNO /\ wf_prog [CTrack 1000] = false.
+Proof. split; vm_compute; reflexivity. Qed.
+(* INSIDE the hypotheses, but the reason R compares multisets: `'ce'` is written e first *)
+Example C03_chord_order :
+  ex_one (CChord [ex_n 0; ex_n 4] None None None)
+  = ([[(0, 64, 0, 86, 100); (0, 60, 0, 86, 100)]], [[(0, 60, 0, 86, 100); (0, 64, 0, 86, 100)]], true).
+Proof. vm_compute. reflexivity. Qed.
+
+Print Assumptions C03_tuplet_count.
+Print Assumptions C03_exec.
+Print Assumptions C03_exec_tokens.
+Print Assumptions C03_exec_from.
+Print Assumptions C03_initial.
+Print Assumptions C03_notes.
+Print Assumptions C03_run_source.
+Print Assumptions C03_step_note.
